@@ -8,8 +8,8 @@
    runs an index loop over range(n) that threads (range_repeat, level_repeat, H) and writes column i of the
    zero matrix: the proofs below relate the two for all inputs.
    Compiled per run against the freshly generated ArtapGen.DoeGen. *)
-From Coq Require Import List ZArith Bool Arith Lia.
-From Artap Require Import Model.Doe Proofs.DoeFullfact.
+From Coq Require Import List ZArith QArith Qround Bool Arith Lia ZifyBool.
+From Artap Require Import Model.Doe Proofs.DoeFullfact Proofs.DoeBB.
 From ArtapGen Require Import GenTactics DoeGen.
 Import ListNotations.
 Local Open Scope nat_scope.
@@ -146,11 +146,171 @@ Proof.
   cbn [Z.of_nat Pos.of_succ_nat Pos.succ]. lia.
 Qed.
 
+(* ---- repeat_center, bbdesign ------------------------------------------------------------- *)
+Theorem repeat_center_gen_eq_model : forall n k : nat, repeat_center_gen n k = repeat (repeat 0%Z n) k.
+Proof. reflexivity. Qed.
+
+Lemma list_upd_upd {A} (v : A) : forall l i, list_upd i v l = upd i v l.
+Proof. induction l as [|h t IH]; intros [|i]; cbn; try reflexivity. Qed.
+
+(* H[a:b, i] = v on a matrix given as the rows before a, the rows a .. b-1 and the rows from b *)
+Section RowStore.
+  Context {A : Type} (d : A) (a b i : nat) (v : list A).
+  Definition rs_fun (p : nat * list A) : list A :=
+    if (a <=? fst p) && (fst p <? b) then list_upd i (nth (fst p - a) v d) (snd p) else snd p.
+  Definition rs (s : nat) (H : list (list A)) : list (list A) := map rs_fun (combine (seq s (length H)) H).
+
+  Lemma rs_app : forall H1 s H2, rs s (H1 ++ H2) = rs s H1 ++ rs (s + length H1) H2.
+  Proof.
+    induction H1 as [|r H1 IH]; intros s H2.
+    - cbn. now rewrite Nat.add_0_r.
+    - unfold rs in *. cbn [app length seq combine map]. rewrite IH.
+      replace (S s + length H1) with (s + S (length H1)) by lia. reflexivity.
+  Qed.
+
+  Lemma rs_out : forall H s, (forall r, s <= r < s + length H -> r < a \/ b <= r) -> rs s H = H.
+  Proof.
+    induction H as [|row H IH]; intros s Hr; [reflexivity|].
+    unfold rs in *. cbn [length seq combine map]. unfold rs_fun at 1. cbn [fst snd].
+    assert (C : (a <=? s) && (s <? b) = false).
+    { assert (Hs : s <= s < s + length (row :: H)) by (cbn [length]; lia).
+      destruct (Hr s Hs) as [L|L].
+      - apply andb_false_intro1. apply Nat.leb_gt. lia.
+      - apply andb_false_intro2. apply Nat.ltb_ge. lia. }
+    rewrite C. f_equal. apply IH. intros r L. apply Hr. cbn [length]. lia.
+  Qed.
+
+  Lemma rs_in : forall H k, a + k + length H <= b ->
+    rs (a + k) H = map (fun p => list_upd i (nth (fst p) v d) (snd p)) (combine (seq k (length H)) H).
+  Proof.
+    induction H as [|row H IH]; intros k L; [reflexivity|].
+    unfold rs in *. cbn [length seq combine map]. unfold rs_fun at 1. cbn [fst snd]. cbn [length] in L.
+    replace ((a <=? a + k) && (a + k <? b)) with true
+      by (symmetry; apply andb_true_intro; split; [apply Nat.leb_le|apply Nat.ltb_lt]; lia).
+    replace (a + k - a) with k by lia. f_equal.
+    replace (S (a + k)) with (a + S k) by lia. apply IH. lia.
+  Qed.
+End RowStore.
+
+Lemma setrows_mid {A} (d : A) (D M R : list (list A)) a b i v :
+  a = length D -> b = a + length M ->
+  np_setcol_rows d (D ++ M ++ R) a b i v
+  = D ++ map (fun p => list_upd i (nth (fst p) v d) (snd p)) (combine (seq 0 (length M)) M) ++ R.
+Proof.
+  intros Ha Hb. change (np_setcol_rows d (D ++ M ++ R) a b i v) with (rs d a b i v 0 (D ++ M ++ R)).
+  rewrite !rs_app. cbn [Nat.add]. f_equal; [|f_equal].
+  - apply rs_out. intros r L. lia.
+  - replace (length D) with (a + 0) by lia. apply rs_in. lia.
+  - apply rs_out. intros r L. lia.
+Qed.
+
+(* one pass of the inner loop: the four rows of the pair (i, j) *)
+Lemma bb_step n i j k (D : list (list Z)) m : length D = 4 * k -> 4 <= m ->
+  np_setcol_rows 0%Z
+    (np_setcol_rows 0%Z (D ++ repeat (repeat 0%Z n) m) (py_max_nat [0; (k + 1 - 1) * 4]) ((k + 1) * 4) i [-1; 1; -1; 1]%Z)
+    (py_max_nat [0; (k + 1 - 1) * 4]) ((k + 1) * 4) j [-1; -1; 1; 1]%Z
+  = (D ++ bb_block n i j) ++ repeat (repeat 0%Z n) (m - 4).
+Proof.
+  intros HD Hm.
+  replace (py_max_nat [0; (k + 1 - 1) * 4]) with (4 * k) by (cbn [py_max_nat fold_left]; lia).
+  replace m with (4 + (m - 4)) at 1 by lia. rewrite repeat_app.
+  rewrite (setrows_mid 0%Z D (repeat (repeat 0%Z n) 4) _ (4 * k) ((k + 1) * 4)) by (cbn [repeat length]; lia).
+  cbn [repeat length seq combine map fst snd nth].
+  match goal with |- np_setcol_rows _ (D ++ ?M ++ ?R) _ _ _ _ = _ =>
+    rewrite (setrows_mid 0%Z D M R (4 * k) ((k + 1) * 4)) by (cbn [length]; lia)
+  end.
+  cbn [length seq combine map fst snd nth].
+  rewrite bb_block_corners. unfold corner. rewrite !list_upd_upd. rewrite <- app_assoc. reflexivity.
+Qed.
+
+Lemma blocks_length n i js : length (flat_map (bb_block n i) js) = 4 * length js.
+Proof. induction js as [|j js IH]; cbn [flat_map length]; [reflexivity|]. rewrite app_length, block_length, IH. lia. Qed.
+
+Lemma bb_inner n i (f : nat * list (list Z) -> nat -> nat * list (list Z)) :
+  (forall k H j, f (k, H) j =
+     (k + 1,
+      np_setcol_rows 0%Z
+        (np_setcol_rows 0%Z H (py_max_nat [0; (k + 1 - 1) * 4]) ((k + 1) * 4) i [-1; 1; -1; 1]%Z)
+        (py_max_nat [0; (k + 1 - 1) * 4]) ((k + 1) * 4) j [-1; -1; 1; 1]%Z)) ->
+  forall js k D m, length D = 4 * k -> 4 * length js <= m ->
+  fold_left f js (k, D ++ repeat (repeat 0%Z n) m)
+  = (k + length js, (D ++ flat_map (bb_block n i) js) ++ repeat (repeat 0%Z n) (m - 4 * length js)).
+Proof.
+  intros Hf. induction js as [|j js IH]; intros k D m HD Hm.
+  - cbn [fold_left length flat_map]. rewrite app_nil_r, Nat.add_0_r, Nat.mul_0_r, Nat.sub_0_r. reflexivity.
+  - cbn [fold_left length flat_map] in *. rewrite Hf, (bb_step n i j k D m HD) by lia.
+    rewrite IH by (try rewrite app_length, block_length; lia).
+    f_equal; [lia|]. rewrite <- !app_assoc. repeat (f_equal; try lia).
+Qed.
+
+Lemma bb_outer n (js : nat -> list nat) (g : nat * list (list Z) -> nat -> nat * list (list Z)) :
+  (forall k D m i, length D = 4 * k -> 4 * length (js i) <= m ->
+     g (k, D ++ repeat (repeat 0%Z n) m) i
+     = (k + length (js i), (D ++ flat_map (bb_block n i) (js i)) ++ repeat (repeat 0%Z n) (m - 4 * length (js i)))) ->
+  forall is_ k D m, length D = 4 * k ->
+  length (flat_map (fun i => flat_map (bb_block n i) (js i)) is_) <= m ->
+  exists k', fold_left g is_ (k, D ++ repeat (repeat 0%Z n) m)
+             = (k', (D ++ flat_map (fun i => flat_map (bb_block n i) (js i)) is_)
+                    ++ repeat (repeat 0%Z n) (m - length (flat_map (fun i => flat_map (bb_block n i) (js i)) is_))).
+Proof.
+  intros Hg. induction is_ as [|i is_ IH]; intros k D m HD Hm.
+  - exists k. cbn [fold_left flat_map length]. now rewrite app_nil_r, Nat.sub_0_r.
+  - cbn [fold_left flat_map] in *. rewrite app_length, blocks_length in Hm.
+    rewrite Hg by lia.
+    destruct (IH (k + length (js i)) (D ++ flat_map (bb_block n i) (js i)) (m - 4 * length (js i))) as (k' & E).
+    { rewrite app_length, blocks_length. lia. }
+    { lia. }
+    exists k'. rewrite E. rewrite app_length, blocks_length. rewrite <- !app_assoc. repeat (f_equal; try lia).
+Qed.
+
+(* int((0.5 * n * (n - 1)) * 4), the float arithmetic read as exact rational arithmetic *)
+Lemma bb_nb_lines n :
+  Z.to_nat (Qfloor ((((1 # 2) * inject_Z (Z.of_nat n)) * inject_Z (Z.of_nat (n - 1))) * inject_Z (Z.of_nat 4))%Q)
+  = 2 * n * (n - 1).
+Proof.
+  assert (E : ((((1 # 2) * inject_Z (Z.of_nat n)) * inject_Z (Z.of_nat (n - 1))) * inject_Z (Z.of_nat 4)
+               == inject_Z (Z.of_nat (2 * n * (n - 1))))%Q).
+  { unfold Qeq, Qmult, inject_Z. cbn [Qnum Qden]. rewrite !Nat2Z.inj_mul.
+    change (Z.of_nat 4) with 4%Z. change (Z.of_nat 2) with 2%Z. cbn [Pos.mul]. ring. }
+  rewrite (Qfloor_comp _ _ E), Qfloor_Z. apply Nat2Z.id.
+Qed.
+
+Theorem bbdesign_gen_eq_model : forall n center : nat,
+  bbdesign_gen n center = match bbdesign n center with Ok rows => Some rows | Err _ => None end.
+Proof.
+  intros n center. unfold bbdesign_gen, bbdesign. cbv zeta.
+  destruct (n <? 3) eqn:E3;
+    (match goal with |- (if ?c then _ else _) = _ => destruct c eqn:Ec end); try lia; try reflexivity.
+  rewrite ff2n_gen_eq_model, ff2n_2.
+  change (length [[-1; -1]; [1; -1]; [-1; 1]; [1; 1]]%Z) with 4.
+  change (np_col 0%Z [[-1; -1]; [1; -1]; [-1; 1]; [1; 1]]%Z 0) with [-1; 1; -1; 1]%Z.
+  change (np_col 0%Z [[-1; -1]; [1; -1]; [-1; 1]; [1; 1]]%Z 1) with [-1; -1; 1; 1]%Z.
+  rewrite bb_nb_lines, !repeat_center_gen_eq_model.
+  match goal with |- context [fold_left ?g (seq 0 (n - 1)) (0, ?H0)] =>
+    destruct (bb_outer n (fun i => seq (i + 1) (n - (i + 1))) g) with (is_ := seq 0 (n - 1)) (k := 0)
+      (D := @nil (list Z)) (m := 2 * n * (n - 1)) as (k' & E)
+  end.
+  - intros k D m i HD Hm. cbv beta iota zeta.
+    match goal with |- context [fold_left ?f (seq (i + 1) (n - (i + 1))) _] =>
+      rewrite (bb_inner n i f) by (try (intros; cbv beta iota zeta; reflexivity); assumption)
+    end.
+    reflexivity.
+  - reflexivity.
+  - change (flat_map (fun i => flat_map (bb_block n i) (seq (i + 1) (n - (i + 1)))) (seq 0 (n - 1))) with (bb_pairs_rows n). rewrite pairs_rows_length. lia.
+  - cbn [app] in E. rewrite E. change (flat_map (fun i => flat_map (bb_block n i) (seq (i + 1) (n - (i + 1)))) (seq 0 (n - 1))) with (bb_pairs_rows n). rewrite pairs_rows_length, Nat.sub_diag.
+    cbn [repeat]. rewrite app_nil_r. rewrite bb_rows_split. reflexivity.
+Qed.
+
 (* the docstring examples, computed from the translated definitions *)
 Example fullfact_gen_doc : fullfact_gen [2; 4; 3] = map (map Z.of_nat)
   [[0;0;0];[1;0;0];[0;1;0];[1;1;0];[0;2;0];[1;2;0];[0;3;0];[1;3;0];
    [0;0;1];[1;0;1];[0;1;1];[1;1;1];[0;2;1];[1;2;1];[0;3;1];[1;3;1];
    [0;0;2];[1;0;2];[0;1;2];[1;1;2];[0;2;2];[1;2;2];[0;3;2];[1;3;2]].
+Proof. vm_compute. reflexivity. Qed.
+
+Example bbdesign_gen_doc : bbdesign_gen 3 3 = Some
+  [[-1;-1;0];[1;-1;0];[-1;1;0];[1;1;0];[-1;0;-1];[1;0;-1];[-1;0;1];[1;0;1];
+   [0;-1;-1];[0;1;-1];[0;-1;1];[0;1;1];[0;0;0];[0;0;0];[0;0;0]]%Z.
 Proof. vm_compute. reflexivity. Qed.
 
 Example ff2n_gen_doc : ff2n_gen 3 =
